@@ -1367,12 +1367,15 @@ class Executor:
             # evaluate the callee's spec in the callee's naming context, but obligations belong to the caller
             self.c_spec = callee
             pre_heap = dict(self.heap)
+            pre_conds = []
             for k, r in enumerate(callee.requires):
                 cond = self._callee_spec(callee, r, env, {})
-                self.oblige("call-pre", cond, node, label=f"{qual}#{k}")
-                self.pc.append(cond)
+                if not getattr(self, "in_spec", False):
+                    self.oblige("call-pre", cond, node, label=f"{qual}#{k}")
+                    self.pc.append(cond)
+                pre_conds.append(cond)
             # raises
-            if callee.raises:
+            if callee.raises and not getattr(self, "in_spec", False):
                 for exc, cond in callee.raises.items():
                     c = self._callee_spec(callee, cond, env, {})
                     if self.decide(c):
@@ -1385,7 +1388,9 @@ class Executor:
                 res = self.make(f"ret_{qual}_{next_id()}", callee.result_type, "FRESH")
             extra = {"result": res, "__old_heap__": pre_heap}
             for lab, post in callee.ensures.items():
-                self.pc.append(self._callee_spec(callee, post, env, extra, old_heap=pre_heap))
+                f = self._callee_spec(callee, post, env, extra, old_heap=pre_heap)
+                # a fact about fresh symbols (result / havocked state): kept outside guard truncation
+                self.fact(z3.Implies(z3.And(*pre_conds), f) if pre_conds else f)
             return res
         finally:
             self.cls_stack = saved_cls
